@@ -88,7 +88,9 @@ where
         } else {
             vec![]
         };
-        if self.repeat.count() == 0 {
+        // Only on the very first sample, not on every chunk of the first
+        // repetition.
+        if self.pos == 0 && self.repeat.count() == 0 {
             tags.push(Tag::new(0, "VectorSource::first", TagValue::Bool(true)));
         }
         let mut os = self.dst.write_buf()?;
